@@ -841,7 +841,7 @@ impl Prop for P {
         "generated CSG (depth <= 3) of spheres, boxes, exact-distance boxes (NaN gradient on every face), capped cylinders, cones and skew ellipsoids, the field optionally scaled by a positive constant, with centres in [-0.45, 0.45]^3 and sizes \
          0.12-0.4, octree depth 1..=5 (thorough 6), world-to-model = identity or translate*rotate*scale (orientation \
          preserving), interpreter or JIT, no pool / global / custom pool. Precondition checked on a reference grid (spacing \
-         h/2): no inside sample in the outer shell of the region, else the case is rejected and counted. Oracle: (1) always: \
+         h/2): no inside sample in the outer shell of the region, and the 1-Lipschitz field provably positive on the six faces of the region (48 x 48 lattice per face, value above the half-diagonal of a lattice cell), else the case is rejected and counted. Oracle: (1) always: \
          all coordinates finite, no triangle repeats an index, every directed edge occurs exactly once and its reverse exactly \
          once; without a transform, every vertex on an edge of the finest lattice (an edge intersection) within 0.02 cells of the surface; (2)-(3) for shapes resolved at this depth (on the reference grid, no inside or outside sample lies farther than \
          1.8h from the part of its set that is more than h away from the other set: no feature or gap thinner than about \
